@@ -41,7 +41,10 @@ class SymBytes:
         return self.items[sl]
 
 
-def job_memdata(length, dw, endianness):
+def job_memdata(length, dw, endianness, via=None, cpu_dw=None):
+    """via=None: get_mem_data called directly.  via="builder": the image takes the way the Builder sends the BIOS - the real
+    Builder._initialize_rom_software -> SoC.init_rom -> SoC.init_ram on a stub SoC that only carries bus.data_width (= ROM word width `dw`),
+    cpu.data_width/endianness and the ROM's memory object; what ends up in rom.mem.init is judged against the ROM word width."""
     from litex.soc.integration import common
 
     def body(ctx):
@@ -107,7 +110,24 @@ def job_memdata(length, dw, endianness):
         common.os = FakeOs
         common.struct = FakeStruct
         try:
-            data = common.get_mem_data("image.bin", data_width=dw, endianness=endianness)
+            if via == "builder":
+                import logging, types
+                from litex.soc.integration import soc as socmod, builder as buildermod
+                socmod.SoCError.__init__ = lambda self, *a, **k: None
+
+                class StubSoC:
+                    init_ram = socmod.SoC.init_ram
+                    init_rom = socmod.SoC.init_rom
+                    logger = logging.getLogger("stub")
+                st = StubSoC()
+                st.bus = types.SimpleNamespace(data_width=dw, regions={"rom": socmod.SoCRegion(origin=0, size=0x1000, mode="rx")})
+                st.cpu = types.SimpleNamespace(data_width=cpu_dw, endianness=endianness)
+                st.rom = types.SimpleNamespace(mem=types.SimpleNamespace(init=None, depth=0x1000 // (dw // 8), width=dw))
+                b = types.SimpleNamespace(software_dir="/nonexistent", soc=st)
+                buildermod.Builder._initialize_rom_software(b)
+                data = st.rom.mem.init
+            else:
+                data = common.get_mem_data("image.bin", data_width=dw, endianness=endianness)
         finally:
             for k, v in saved.items():
                 if v is None:
@@ -120,6 +140,10 @@ def job_memdata(length, dw, endianness):
         B = dw // 8
         nwords = (length + B - 1) // B
         res = {"word_count": len(data) == nwords}
+        if len(data) != nwords:
+            ctx.event("packed")
+            res["every_file_byte_at_the_lane_the_cpu_reads_and_padding_zero"] = False
+            return res
         ok = []
         for a in range(nwords * B):
             wi = a // B
@@ -136,10 +160,11 @@ def job_memdata(length, dw, endianness):
         ctx.event("packed")
         res["every_file_byte_at_the_lane_the_cpu_reads_and_padding_zero"] = AND(*ok)
         return res
-    return run_pysym("mem_data_len%d_dw%d_%s" % (length, dw, endianness), body, ["word_count", "every_file_byte_at_the_lane_the_cpu_reads_and_padding_zero"],
+    return run_pysym("mem_data_len%d_dw%d_%s%s" % (length, dw, endianness, "" if via is None else "_via_builder_cpu%d" % cpu_dw), body, ["word_count", "every_file_byte_at_the_lane_the_cpu_reads_and_padding_zero"],
                      required_events=["packed"], funcs=FUNCS, cfg=dict(file_length=length, data_width=dw, endianness=endianness,
                      lane_convention="32-bit sub-word s of a wider word at bits [32s,32s+32); inside it byte a%4 at lane a%4 (little) / 3-a%4 (big)"),
                      replay_dir=os.environ.get("VERIF_REPLAY_DIR") or None)
+
 
 
 def jobs(tier):
@@ -151,4 +176,7 @@ def jobs(tier):
             js.append(Job("mem_data_len%d_dw32_%s" % (L, e), job_memdata, dict(length=L, dw=32, endianness=e)))
         for L in ([5, 9] if T else [5]):
             js.append(Job("mem_data_len%d_dw64_%s" % (L, e), job_memdata, dict(length=L, dw=64, endianness=e)))
+        # the way of the BIOS image: Builder._initialize_rom_software -> SoC.init_rom/init_ram, CPU width equal to / different from the bus (ROM word) width
+        for (bdw, cdw) in ([(32, 32), (64, 32), (64, 64), (32, 64)] if T else [(64, 32), (32, 64)]):
+            js.append(Job("mem_data_len5_dw%d_%s_via_builder_cpu%d" % (bdw, e, cdw), job_memdata, dict(length=5, dw=bdw, endianness=e, via="builder", cpu_dw=cdw)))
     return js
